@@ -951,9 +951,14 @@ class Curve(BaseCurve):
         for newvector, matrix in zip(newvectors, matrices):
             matrix = np.array(matrix)
             newcurve = Curve(newvector)
-            newcurve.ctrlpoints = np.dot(matrix, self.ctrlpoints)
-            if self.weights is not None:
-                newcurve.weights = np.dot(matrix, self.weights)
+            if self.weights is None:
+                newcurve.ctrlpoints = np.dot(matrix, self.ctrlpoints)
+            else:
+                weights = np.dot(matrix, self.weights)
+                points = [wi * pt for wi, pt in zip(self.weights, self.ctrlpoints)]
+                points = np.dot(matrix, points)
+                newcurve.weights = weights
+                newcurve.ctrlpoints = [pt / wi for pt, wi in zip(points, weights)]
             newcurves.append(newcurve)
         return tuple(newcurves)
 
